@@ -383,6 +383,10 @@ class Sym:
     def ev_Const(self, n, st):
         v = n.get("val")
         if isinstance(v, dict) and v.get("t") == "int":
+            if n.get("ty") == "char" and 0 <= v["v"] < 0x110000:
+                return [(st, (VAL, ("lit", "char", chr(v["v"]))))]     # a named `char` constant is that character
+            if n.get("ty") == "bool":
+                return [(st, (VAL, ("lit", "bool", bool(v["v"]))))]
             return [(st, (VAL, lit_int(v["v"])))]
         if isinstance(v, dict) and v.get("t") == "pretty":
             pv = (v["v"] or "").strip()
